@@ -1,5 +1,6 @@
 """C01 - stored bytes come back unchanged, addressed by their own hash."""
 import hashlib
+import os
 
 from hypothesis import strategies as st
 
@@ -135,6 +136,8 @@ def _flaky_case(case, ctx):
     run = seq.Run(dict(case, ops=[]), ctx)
     data = run.contents[0]
     stream = _flaky_stream(data, case["fail_at"], case["errno"])
+    if case.get("via", "store_object").startswith("store_metadata"):
+        return _flaky_metadata_case(case, ctx, run, data, stream)
     before = common.alpha(run.root, run.cfg)
     out = common.call(run.store.store_object, TARGET, stream)
     if case.get("judge_residue") and not is_ok(out):
@@ -167,6 +170,35 @@ def _flaky_case(case, ctx):
     ctx.sample({"family": "caller's stream fails once", "fail_at": case["fail_at"], "errno": case["errno"],
                 "outcome": "ok" if is_ok(out) else out[1]})
 
+
+
+def _flaky_metadata_case(case, ctx, run, data, stream):
+    """(C05 / C11) store_metadata whose SOURCE stream raises while it is read: a completed, rejected call - no temporary file,
+    the previous version (or absence) of the document as before; a reported success holds exactly the supplied bytes."""
+    overwrite = case["via"].endswith("overwrite")
+    if overwrite:
+        common.call(run.store.store_metadata, TARGET, common.write_file(os.path.join(run.src, "v0.xml"), b"<previous-version/>"), "fmt:flaky")
+    before = common.alpha(run.root, run.cfg)
+    out = common.call(run.store.store_metadata, TARGET, stream, "fmt:flaky")
+    after = common.alpha(run.root, run.cfg)
+    what = (f"store_metadata({'existing' if overwrite else 'new'} document, stream whose read fails once with {case['errno']} at offset "
+            f"{case['fail_at']}, {len(data)} bytes)")
+    got = common.retrieve_meta_bytes(run.store, TARGET, "fmt:flaky")
+    if is_ok(out):
+        if not is_ok(got) or got[1] != data:
+            ctx.violation("success-with-wrong-content", f"{what} returned normally; retrieve_metadata -> "
+                          f"{got[1] if not is_ok(got) else seq._short(got[1])}", {"what": "flaky stream", "op": "smeta"})
+        ctx.classify("flaky-stream-store_metadata-succeeded")
+    else:
+        if after["residue"]:
+            ctx.violation("bookkeeping-residue", f"{what} raised {out[1]} and left {after['residue'][:3]} behind",
+                          {"aspect": "residue", "op": "smeta"})
+        if common.alpha_key(after) != common.alpha_key(before):
+            ctx.violation("bookkeeping-refs", f"{what} raised {out[1]} and changed the store", {"aspect": "state", "op": "smeta"})
+        if stream.closed:
+            ctx.violation("stream-closed", f"caller's stream was closed by {what}", {"what": "flaky stream", "op": "smeta"})
+        ctx.classify("flaky-stream-store_metadata-raised")
+    ctx.nontrivial(["flaky-smeta", case["cfg"]["algo"], case["fail_at"], case["errno"], overwrite, "ok" if is_ok(out) else "raised"])
 
 
 def _stream_fault_case(case, ctx):
